@@ -49,11 +49,19 @@ def generate(repo, g):
     want = {'_path': 'path', '_environment_path': 'environment_path', '_sys_path': 'sys_path',
             '_smart_sys_path': 'smart_sys_path', '_load_unsafe_extensions': 'load_unsafe_extensions',
             '_django': 'False', 'added_sys_path': 'list(map(str, added_sys_path))'}
+    text = u(init)
+    # shape A (unchanged code): only a str path is made absolute; shape B (repair): every path is
+    if assigns.get('_path') == 'path' and has(text, 'if isinstance(path, str):\n path = Path(path).absolute()'):
+        abs_always = False
+    elif assigns.get('_path') == 'path.absolute()' and has(text, 'if isinstance(path, str):\n path = Path(path)\n'):
+        abs_always = True
+        want['_path'] = 'path.absolute()'
+    else:
+        raise TieBroken('project.py: Project.__init__ no longer makes a str path absolute', assigns.get('_path', ''))
+    g.define('pathAlwaysAbsolute', 'Bool', lean_bool(abs_always),
+             'jedi/api/project.py:Project.__init__ `.absolute()` applied to Path arguments too')
     if assigns != want:
         raise TieBroken('project.py: Project.__init__ attribute assignments changed', repr(assigns))
-    text = u(init)
-    if not has(text, 'if isinstance(path, str):\n path = Path(path).absolute()'):
-        raise TieBroken('project.py: Project.__init__ no longer makes a str path absolute')
     if not has(text, 'if sys_path is not None:\n sys_path = list(map(str, sys_path))'):
         raise TieBroken('project.py: Project.__init__ no longer maps str over sys_path')
     # F5 repair: does __init__ (or save) turn a Path environment_path into a str?
